@@ -410,7 +410,9 @@ def run_compiler(mode: dict, outdirs: typing.List[str], hdr: str, extra: typing.
                     raise ValueError("not a diagnostics array")
                 diags += arr
         except ValueError:
-            diags = [{"kind": "fatal error", "message": "unparsable compiler output: " + err[:300], "locations": [], "children": []}]
+            # "compilation terminated." etc. follow the array as plain text after a fatal error
+            if not diags:
+                diags = [{"kind": "fatal error", "message": "unparsable compiler output: " + err[:300], "locations": [], "children": []}]
     if p.returncode != 0 and not diags:
         diags = [{"kind": "fatal error", "message": f"compiler exit status {p.returncode} without diagnostics", "locations": [], "children": []}]
     return p.returncode, diags, " ".join(compile_cmd(mode, ["$OUT"] if len(outdirs) == 1 else [f"$OUT{i}" for i in range(len(outdirs))], extra)) + f"   <<< #include \"{hdr}\""
